@@ -79,16 +79,18 @@ func c06Doc(env *engine.Env, f, sign, comp string) (fixture.Doc, map[string]stri
 		set.RPMCompress = comp
 	}
 	refs := map[string]string{"content:big": t.P("share/big.bin"), "content:conf": t.P("etc/app.conf"), "content:tree": t.P("tree")}
+	// the configuration-file flavours name sources every format reads ("missing ok" is about the installed system)
+	list = append(list, model.Entry{Src: "share/f5000.bin", Dst: "/etc/app/nr.conf", Type: "config|noreplace"},
+		model.Entry{Src: "share/ww.txt", Dst: "/etc/app/mo.conf", Type: "config|missingok"})
+	refs["content:noreplace"], refs["content:missingok"] = t.P("share/f5000.bin"), t.P("share/ww.txt")
 	if f == "rpm" {
 		// the rpm-only entry types read their sources too
 		list = append(list, model.Entry{Src: "doc/manual.txt", Dst: "/usr/share/doc/app/manual.txt", Type: "doc"},
 			model.Entry{Src: "doc/LICENSE", Dst: "/usr/share/licenses/app/LICENSE", Type: "licence"},
 			model.Entry{Src: "doc/README", Dst: "/usr/share/doc/app/README", Type: "readme"},
-			model.Entry{Src: "share/f1024.bin", Dst: "/usr/share/licenses/app/COPYING", Type: "license"},
-			model.Entry{Src: "share/f5000.bin", Dst: "/etc/app/nr.conf", Type: "config|noreplace"},
-			model.Entry{Src: "share/ww.txt", Dst: "/etc/app/mo.conf", Type: "config|missingok"})
+			model.Entry{Src: "share/f1024.bin", Dst: "/usr/share/licenses/app/COPYING", Type: "license"})
 		refs["content:doc"], refs["content:licence"], refs["content:readme"] = t.P("doc/manual.txt"), t.P("doc/LICENSE"), t.P("doc/README")
-		refs["content:license"], refs["content:noreplace"], refs["content:missingok"] = t.P("share/f1024.bin"), t.P("share/f5000.bin"), t.P("share/ww.txt")
+		refs["content:license"] = t.P("share/f1024.bin")
 	}
 	d := set.doc(list, t.Root)
 	writeScripts(t, f, "normal")
@@ -215,6 +217,9 @@ var c06Invalid = []struct {
 	{"apk-sign-no-key-name-maintainer-without-address", []string{"apk"}, func(env *engine.Env, d fixture.Doc, f string) {
 		d["apk"] = map[string]any{"signature": map[string]any{"key_file": keyPath(env, "rsa_unprotected.priv")}}
 		d["maintainer"] = "Jane Roe"
+	}},
+	{"glob-no-match-missingok", Formats, func(env *engine.Env, d fixture.Doc, f string) {
+		d["contents"] = []any{map[string]any{"src": tree(env).P("etc/*.nomatch"), "dst": "/etc/x", "type": "config|missingok"}}
 	}},
 	{"glob-no-match", Formats, func(env *engine.Env, d fixture.Doc, f string) {
 		d["contents"] = []any{map[string]any{"src": tree(env).P("etc/*.nomatch"), "dst": "/x"}}
